@@ -89,9 +89,15 @@ def _worker(job):
                         o.before(p, att)
                     rej = None
                     try:
-                        p2 = stream.apply_attempt(p, att, env)
+                        with common.time_limit(opts.get("attempt_timeout_s", 180)):
+                            p2 = stream.apply_attempt(p, att, env)
                     except stream.Rejected as r:
                         rej = r
+                    except common.HarnessTimeout as t:
+                        # the real operation does not come back: not a verdict on the property (counted, listed)
+                        rej = stream.Rejected("HarnessTimeout", str(t))
+                        rec["records"].append({"kind": "note", "key": f"timeout:{att['op']}", "what": f"{att['op']} did not return within the time limit",
+                                               "att": att, "hist": hist, "program": name, "diag": "", "src": src})
                     if str(p) != fp:
                         # the operation changed an existing procedure in place (C07); record it and
                         # continue on a freshly built copy so that later results are not polluted
